@@ -82,7 +82,22 @@ func (s *vfStubNsqd) Up() {
 	if s.ln != nil {
 		return
 	}
-	ln, err := net.Listen("tcp", s.addr)
+	// The port was handed out by the kernel (":0") and is free while the stub is down: on a busy machine another
+	// process's outgoing connection can get it as its ephemeral source port, and Listen then fails with EADDRINUSE for
+	// as long as that connection lives (seen once in a thorough sweep: `listen tcp 127.0.0.1:37333: bind: address
+	// already in use` = a false alarm on the unchanged tree). Such connections are short-lived: wait for the port.
+	var ln net.Listener
+	var err error
+	for i := 0; i < 1200; i++ {
+		ln, err = net.Listen("tcp", s.addr)
+		if err == nil {
+			break
+		}
+		if i == 0 {
+			println("STUB-NOTE listen", s.addr, "failed, retrying for up to 30 s:", err.Error())
+		}
+		time.Sleep(25 * time.Millisecond)
+	}
 	if err != nil {
 		panic(err)
 	}
